@@ -150,6 +150,8 @@ int main(int argc, char** argv)
 			double v1 = Integrate(wf, a, b, m, par);
 			double v2 = Integrate(wf, b, a, m, par);
 			double v0 = Integrate(wf, a, a, m, par);
+			if(getenv("VERIF_DEBUG") && m != "Trapezoidal" && quant((double)(v1 - exact), tol_of(m) * (m == "Adaptive-Simpson" ? std::max(l1, std::fabs((b - a) / 6.0 * (f(a) + 4.0 * f(0.5 * (a + b)) + f(b)))) : l1)) > 1)
+				dprintf(errfd_ref(), "DBGONE ii=%d fam=%d meth=%s a=%.17g b=%.17g v1=%.17g exact=%.17Lg l1=%.17g coarse=%.17g f(a)=%g f(mid)=%g f(b)=%g\n", ii, fam, m.c_str(), a, b, v1, exact, l1, (b - a) / 6.0 * (f(a) + 4.0 * f(0.5 * (a + b)) + f(b)), f(a), f(0.5 * (a + b)), f(b));
 			T.emit({{"e", "One"}, {"meth", m}, {"fam", fam}, {"par", par}, {"tol", m == "Trapezoidal" ? "1e-6" : "1e-9"},
 					// unit: the method's stated accuracy relative to the L1 norm (Adaptive-Simpson: to max(L1, |three-point estimate|), which is what its tolerance is derived from)
 					{"errq", quant((double)(v1 - exact), tol_of(m) * (m == "Adaptive-Simpson" ? std::max(l1, std::fabs((b - a) / 6.0 * (f(a) + 4.0 * f(0.5 * (a + b)) + f(b)))) : l1))},
